@@ -30,7 +30,7 @@ TIERS = {
     "quick": {"shards": 8, "budget_s": 45},
     "thorough": {"shards": 16, "budget_s": 540},
 }
-MIN_EVENTS = {"quick": 100, "thorough": 1500}
+MIN_EVENTS = {"quick": 400, "thorough": 1500}
 DECIDING = {"kalman_filter"}
 RULE = (
     "families L (linear, stationary, 1-3 observables with lags, 0-3 measurement shocks) and N (nonlinear, linearised, log "
@@ -538,7 +538,7 @@ def replay(c, case):
 def shard(c):
     install()
     rng = c.rng
-    n = c.scale(150, 4000)
+    n = c.scale(600, 4000)
     for i in range(n):
         if c.out_of_time():
             break
